@@ -12,6 +12,10 @@ SetOf(seq) == { seq[i] : i \in 1..Len(seq) }
 ShareOf(ob) == [m \in { ob.members[i][1] : i \in 1..Len(ob.members) } |->
                    UNION { SetOf(ob.members[i][2]) : i \in { j \in 1..Len(ob.members) : ob.members[j][1] = m } }]
 
+(* ... made total over the harness' clients: a member the answer does not list has an empty share here (the sweep labels the *)
+(* missing member; nothing may fail to evaluate on a wrong answer)                                                         *)
+TotalShare(ob) == LET sh == ShareOf(ob) IN [m \in (DOMAIN sh) \cup (1..3) |-> IF m \in DOMAIN sh THEN sh[m] ELSE {}]
+
 Reset(e) ==
     /\ P' = e.parts /\ len' = [p \in 1..e.parts |-> 0] /\ goff' = [p \in 1..e.parts |-> None]
     /\ members' = {} /\ share' = <<>> /\ recent' = <<>> /\ lastp' = <<>>
@@ -20,7 +24,7 @@ Fatal(e) == UNCHANGED vars /\ dead' = TRUE /\ bad' = {<<"X.fatal", e.ev, e.fatal
 Skip == UNCHANGED <<vars, dead>> /\ bad' = {}
 
 Input(e) ==
-    LET sh2 == ShareOf(e.obs) IN
+    LET sh2 == TotalShare(e.obs) IN
     CASE e.ev = "join" -> IF Ok(e) THEN Join(e.c, sh2) ELSE UNCHANGED vars
       [] e.ev \in {"leave", "disconnect"} -> IF Ok(e) /\ e.c \in members THEN Leave(e.c, sh2) ELSE UNCHANGED vars
       [] e.ev = "add_parts" -> IF Ok(e) THEN AddPartitions(e.k, sh2) ELSE UNCHANGED vars
